@@ -5,7 +5,6 @@ go 1.25
 require (
 	github.com/sarchlab/akita/v4 v4.9.0
 	github.com/sarchlab/mgpusim/v4 v4.0.0
-	github.com/sirupsen/logrus v1.9.3
 )
 
 require (
@@ -20,6 +19,7 @@ require (
 	github.com/tklauser/numcpus v0.10.0 // indirect
 	go.uber.org/mock v0.6.0 // indirect
 	golang.org/x/sys v0.35.0 // indirect
+	gonum.org/v1/gonum v0.15.1 // indirect
 )
 
-replace github.com/sarchlab/mgpusim/v4 => /work/C20/repo
+replace github.com/sarchlab/mgpusim/v4 => /repo
